@@ -5,6 +5,7 @@ from analysis.flow import DefUse, ReachingDefs, backward, find_calls, callee_is,
 from analysis.nioabs import NioFacts, NioWalk
 from analysis.table import describe_val, switch_test
 from rules.common import need, inl
+from rules.common import unit as common_unit
 
 BUF_READ = ("read", "recv", "recvfrom", "pread")
 BUF_WRITE = ("write", "send", "sendto", "pwrite")
@@ -391,30 +392,30 @@ def fresh_mode_rule(run, f, rid):
     """The wrappers decide and restore the mode from what the kernel says *now*; a remembered answer goes stale when the
     caller changes the mode with fcntl/ioctl or the number is reused."""
     run.rule(rid, "is_blocking / set_blocking / set_non_blocking read and write the descriptor's flags through fcntl on every call (no cached answer)", floor=2, template="T5/T9")
-    for fn in ("syscall::unix::is_non_blocking", "syscall::unix::set_non_blocking_flag"):
-        b = need(run, rid, f, fn)
+    # judged on the three entry points the wrappers use, each as one unit with its private helpers (is_non_blocking,
+    # set_non_blocking_flag, or whatever they are called after a refactoring) spliced in
+    from analysis.flow import static_of
+    for fn in ("syscall::unix::is_blocking", "syscall::unix::set_blocking", "syscall::unix::set_non_blocking"):
+        b = common_unit(run, rid, f, fn, force=("is_non_blocking", "set_non_blocking_flag"))
         if b is None:
             continue
         du = DefUse(b)
         cfg = Cfg(b)
-        fc = [(x, t) for (x, t) in b.calls() if norm(t.get("callee") or "").endswith("libc::fcntl") or norm(t.get("callee") or "") == "libc::fcntl" or norm(t.get("callee") or "").endswith("::fcntl")]
+        fc = [(x, t) for (x, t) in b.calls() if norm(t.get("callee") or "").endswith("::fcntl") or norm(t.get("callee") or "") == "libc::fcntl"]
         statics = set()
         for (x, t) in b.calls():
             for a in t["args"]:
-                from analysis.flow import static_of
                 st = static_of(b, du, a)
                 if st:
                     statics.add(st)
+        for blk in b.blocks:
+            for s_ in blk["stmts"]:
+                if s_["k"] == "assign" and s_["rhs"]["k"] == "tlsref":
+                    statics.add(norm(s_["rhs"].get("static") or "thread-local"))
         first_dom = fc and all(cfg.dominates(fc[0][0], r) for r in cfg.returns)
-        if fc and first_dom and not statics:
-            run.ok(rid, fn, "fcntl(F_GETFL) on every call, no static consulted")
+        # the descriptor asked about is the function's own argument
+        own_fd = all(backward(b, t["args"][0], du, at=(x, "term"), through_calls="none").params == {1} for (x, t) in fc)
+        if fc and first_dom and not statics and own_fd:
+            run.ok(rid, fn, "fcntl(fd, F_GETFL) on every call, no static consulted")
         else:
-            run.fail(rid, fn, b.loc(), "%s can answer without asking the kernel (fcntl dominates every return: %s, statics consulted: %s): a remembered mode goes stale when the caller changes it or the number is reused, and the wrappers then clear the caller's O_NONBLOCK" % (fn.rsplit("::", 1)[1], bool(first_dom), sorted(statics)))
-    b = need(run, rid, f, "syscall::unix::is_blocking")
-    if b is not None:
-        cs = [norm(t.get("callee") or "") for (_x, t) in b.calls()]
-        du = DefUse(b)
-        if cs == ["syscall::unix::is_non_blocking"]:
-            run.ok(rid, "syscall::unix::is_blocking", "!is_non_blocking(fd)")
-        else:
-            run.fail(rid, "syscall::unix::is_blocking", b.loc(), "is_blocking must be exactly the negation of a fresh is_non_blocking(fd) (calls: %s)" % cs)
+            run.fail(rid, fn, b.loc(), "%s can answer without asking the kernel (fcntl dominates every return: %s, statics consulted: %s, asks about its own fd: %s): a remembered mode goes stale when the caller changes it or the number is reused, and the wrappers then clear the caller's O_NONBLOCK" % (fn.rsplit("::", 1)[1], bool(first_dom), sorted(statics), own_fd))
